@@ -484,6 +484,22 @@ func reference(c *Case) exp {
 		}
 		return skip()
 	case "divisibleby":
+		if in.K == "int" && (p.K == "str" || p.K == "float") {
+			// a divisor that is text or a fraction counts with its whole part (0 for text that is no number): whatever
+			// its truthiness, a divisor of 0 divides nothing
+			whole := int64(p.F)
+			if p.K == "str" {
+				f, err := strconv.ParseFloat(p.S, 64)
+				if err != nil {
+					f = 0
+				}
+				whole = int64(f)
+			}
+			if whole == 0 {
+				return exact("False")
+			}
+			return exact(printed(univ.Bool(in.I%whole == 0)))
+		}
 		if in.K != "int" || p.K != "int" {
 			return skip()
 		}
@@ -1022,6 +1038,12 @@ func run(r *eng.Runner) {
 			do("divisibleby", univ.Int(a), pi(b))
 		}
 	}
+	for _, a := range []int{0, 6, 7} {
+		for _, dv := range []univ.M{univ.Str("0"), univ.Str("abc"), univ.Str("3"), univ.Str("0.9"), univ.Str(""), univ.Float(0.5), univ.Float(-0.25), univ.Float(3.7), univ.Float(0)} {
+			dv := dv
+			do("divisibleby", univ.Int(a), &dv)
+		}
+	}
 	for _, v := range []int{0, 7, 12, 305, 1234567890} {
 		for pos := -1; pos <= 12; pos++ {
 			do("get_digit", univ.Int(v), pi(pos))
@@ -1062,7 +1084,7 @@ func run(r *eng.Runner) {
 		do("default", v, ps("d"))
 		do("default_if_none", v, ps("d"))
 	}
-	for _, v := range []univ.M{univ.Str("12"), univ.Str("12.7"), univ.Str("-12.7"), univ.Str("abc"), univ.Str(""), univ.Float(3.9), univ.Float(-3.9), univ.Int(7), univ.Nil(), univ.Str("1e3")} {
+	for _, v := range []univ.M{univ.Str("12"), univ.Str("12.7"), univ.Str("-12.7"), univ.Str("abc"), univ.Str(""), univ.Str("010"), univ.Str("0755"), univ.Str("-017"), univ.Str("0x1F"), univ.Str("0b11"), univ.Str("08"), univ.Str("0o17"), univ.Str("1_000"), univ.Float(3.9), univ.Float(-3.9), univ.Int(7), univ.Nil(), univ.Str("1e3")} {
 		do("integer", v, nil)
 		do("float", v, nil)
 	}
